@@ -487,7 +487,7 @@ func (f *Frame) havocCall(st *State, in ssa.Instruction, sig *types.Signature, n
 	}
 	vc.env.fresh++
 	st.gen = vc.env.fresh
-	st.heaps = map[string]Term{}
+	st.heaps = vc.keepPrivate(st.heaps)
 	ntop := vc.freshConst("top", SInt)
 	vc.assumeIn(st, Le(st.top, ntop))
 	st.top = ntop
@@ -581,7 +581,7 @@ func (f *Frame) applyContract(st *State, in ssa.Instruction, ct *Contract, sig *
 		}
 		vc.env.fresh++
 		st.gen = vc.env.fresh
-		st.heaps = map[string]Term{}
+		st.heaps = vc.keepPrivate(st.heaps)
 	} else {
 		mods := vc.evalMods(sc, ct)
 		byHeap := map[string][]modLoc{}
